@@ -2,6 +2,7 @@
 package main
 
 import (
+	"runtime/pprof"
 	"flag"
 	"fmt"
 	"os"
@@ -15,13 +16,21 @@ import (
 )
 
 func main() {
+	if f := os.Getenv("ELYSLINT_CPUPROF"); f != "" {
+		if w, err := os.Create(f); err == nil {
+			_ = pprof.StartCPUProfile(w)
+			defer pprof.StopCPUProfile()
+		}
+	}
 	if len(os.Args) < 2 {
 		fmt.Fprintln(os.Stderr, "usage: elyslint check|dump|roots|funcs ...")
 		os.Exit(2)
 	}
 	switch os.Args[1] {
 	case "check":
-		os.Exit(check(os.Args[2:]))
+		code := check(os.Args[2:])
+		pprof.StopCPUProfile()
+		os.Exit(code)
 	case "dump":
 		dump(os.Args[2:])
 	case "roots":
@@ -270,7 +279,11 @@ func matrix() {
 
 func runMatrix(P *core.Program, verbose bool) {
 	nf := &rules.NFCache{}
+	only := os.Getenv("ELYSLINT_ONLY")
 	for _, id := range rules.IDs() {
+		if only != "" && !strings.Contains(","+only+",", ","+id+",") {
+			continue
+		}
 		R, _ := rules.Decide(id, "quick", P, nf)
 		v := R.Violations()
 		var ks []string
